@@ -22,13 +22,14 @@ RULE = ("IR modules over wasm's value types (i32/u32/i64/u64/f32/f64; i8/u8/i16/
         "constant, every comparison x type x V7 x V7 (thorough: all two-instruction programs over i32/i64/f64); L2 store/load of every memory "
         "type at 8 aligned/unaligned offsets of a global and of stack slots, store-as-T1/load-as-T2 for all pairs, pointers stored/reloaded, "
         "pointer differences, neighbouring globals of odd sizes, irgen.l2_programs(<=2; thorough 3); L3 EVERY CFG skeleton of "
-        "irgen.cfg_skeletons(n), n <= 3 (quick; thorough n <= 4, incl. irreducible, multi-exit and nested loops) x 12 body/condition rotations "
-        "over memory variables + SSA-form programs (phis at joins, pruned/unpruned, swap/keep-previous renamings) x 25 (thorough 36) argument "
-        "pairs; quick also every 4-block skeleton x 1 rotation; L4 irgen.l4 phi patterns (swap, self-loop, diamonds, tail recursion); globals "
+        "irgen.cfg_skeletons(n) (1/3/68/3702 skeletons for n = 1..4, incl. irreducible, multi-exit, nested and exit-less loops): n <= 3 x 12 "
+        "(thorough 18) body/condition rotations over memory variables + all irgen24 SSA-form programs (phis at joins, pruned/unpruned, "
+        "swap/keep-previous renamings), n = 4 x the seed-selected rotation (quick) / x 12 rotations + 2 SSA programs (thorough), each on 25 "
+        "(thorough 36) argument pairs; L4 irgen.l4 phi patterns (swap, self-loop, diamonds, tail recursion) on i32 and i64; globals "
         "without/with initial bytes, pointer and function-pointer initialisers, literal data; direct/recursive/indirect/external calls, stack "
         "frames across calls; the C corpus (vf/gen/ccorpus.py) at -O0 and -O2 through the C front end with the wasm type layout; a case = one "
-        "(function, argument vector) run that the reference classifies as defined; distinct non-trivial = distinct (mechanism, returned value, "
-        "global memory image, external trace)")
+        "(function, argument vector) run that the reference classifies as defined, or one module outcome (rejected / crashed / invalid); "
+        "distinct non-trivial = distinct (mechanism, returned value, global memory image, external trace length)")
 ASSUMPTIONS = [
     "reference: vf/sem/irinterp.py Interp on the same ir.Module, ptr_size=4: wrap-around integers, / and % truncating, arithmetic >> for signed, "
     "float->int truncating, f32 values rounded to single precision (validated against gcc by C01)",
@@ -55,7 +56,7 @@ CLAIM = {"text": "inside the stated bound every module that ir_to_wasm accepts i
 COMPILE_CPU_S = 30
 CALL_TIMEOUT_MS = 1000
 CONFIRM_TIMEOUT_MS = 6000
-MAX_HANGS_PER_NODE = 8
+MAX_HANGS_PER_NODE = 16
 JOBS_PER_NODE = 400
 PURE_BATCH = 49
 CFG_BATCH = 12
@@ -969,7 +970,7 @@ def judge(p, pr, res, findings, base_order):
 
         if "hang" in rec:
             tainted = True
-            report("hang", "the wasm code does not terminate (no progress for %d ms); IR semantics: returns %s after <= %d block steps" %
+            report("hang", "the wasm code does not terminate (watchdog: no progress for >= %d ms); IR semantics: returns %s after <= %d block steps" %
                    (CALL_TIMEOUT_MS, show(rty, want), c.get("steps", 20)))
             continue
         if "error" in rec:
